@@ -23,8 +23,56 @@ pub fn release_held_locks() {
         Err(_) => return,
     };
     for (path, pid, timestamp) in locks {
+        let _guard = path.parent().and_then(DirGuard::lock);
         if owns_lock_file(&path, pid, timestamp) {
             let _ = fs::remove_file(&path);
+        }
+    }
+}
+
+/// Serialises, between processes, every sequence that inspects the lock file and then changes it:
+/// `acquire` (read the existing lock, judge it, remove it, publish our own) and the release paths
+/// (check that the file is still ours, remove it). Without it two processes can both judge the
+/// same leftover lock removable, and the slower one removes the lock the faster one has just
+/// taken.
+///
+/// The guard is an exclusive advisory `flock` on the `.renamify` directory, held for those few
+/// calls only. The kernel drops it when the process dies, so it cannot go stale itself. Where
+/// `flock` is not available the sequences run unguarded, as before.
+struct DirGuard {
+    #[cfg(unix)]
+    dir: File,
+}
+
+impl DirGuard {
+    #[cfg(unix)]
+    fn lock(dir: &Path) -> Option<Self> {
+        use std::os::unix::io::AsRawFd;
+
+        let dir = File::open(dir).ok()?;
+        loop {
+            if unsafe { libc::flock(dir.as_raw_fd(), libc::LOCK_EX) } == 0 {
+                return Some(Self { dir });
+            }
+            if std::io::Error::last_os_error().kind() != std::io::ErrorKind::Interrupted {
+                return None;
+            }
+        }
+    }
+
+    #[cfg(not(unix))]
+    fn lock(_dir: &Path) -> Option<Self> {
+        None
+    }
+}
+
+#[cfg(unix)]
+impl Drop for DirGuard {
+    fn drop(&mut self) {
+        use std::os::unix::io::AsRawFd;
+
+        unsafe {
+            libc::flock(self.dir.as_raw_fd(), libc::LOCK_UN);
         }
     }
 }
@@ -40,6 +88,11 @@ impl LockFile {
     /// Acquire a lock for the renamify operation
     pub fn acquire(renamify_dir: &Path) -> Result<Self> {
         let lock_path = renamify_dir.join(LOCK_FILE_NAME);
+
+        // Ensure the directory exists, and keep other processes out of the lock file until ours
+        // is published (or we give up)
+        fs::create_dir_all(renamify_dir).context("Failed to create renamify directory")?;
+        let _guard = DirGuard::lock(renamify_dir);
 
         // Check if lock file exists
         if lock_path.exists() {
@@ -95,11 +148,6 @@ impl LockFile {
 
         let lock_content = format!("{}:{}", pid, timestamp);
 
-        // Ensure the directory exists
-        if let Some(parent) = lock_path.parent() {
-            fs::create_dir_all(parent).context("Failed to create renamify directory")?;
-        }
-
         // Publish the lock file complete: write a private temporary file, then link it to the lock
         // path. Like `create_new`, `hard_link` fails if the path exists, but the lock file is never
         // visible empty, so no other process can mistake a lock that is being taken for an
@@ -144,6 +192,7 @@ impl Drop for LockFile {
     fn drop(&mut self) {
         // Best effort cleanup on drop. Remove the file only if it is still our lock: a process
         // that judged this lock stale may have replaced it with its own, which must survive.
+        let _guard = self.path.parent().and_then(DirGuard::lock);
         if owns_lock_file(&self.path, self.pid, self.timestamp) {
             let _ = fs::remove_file(&self.path);
         }
